@@ -314,7 +314,7 @@ def C08(infos: List[EnumInfo], ctx: dict):
             if len(names) != n_all:
                 out.append(Violation("C08", "VariantNames has one entry per declared variant", "C08:names-length:%s" % pc, "%d names for %d declared variants" % (len(names), n_all), where(info, "VariantNames", {"placement": pc})))
             else:
-                for v in es.variants:
+                for v in es.variants if es.names_modelled() else []:
                     rows += 1
                     if names[v.index] not in es.canonical_set(v):
                         out.append(Violation("C08", "VariantNames::VARIANTS[i] is the canonical name of the i-th declared variant", "C08:names-content",
@@ -1152,7 +1152,7 @@ def C14(infos: List[EnumInfo], ctx: dict):
             if arr is None:
                 out.append(Violation("C14", "get_serializations returns a static array of literals", "C14:serializations-shape", "arm for %s: %s" % (v.name, H.brief(r[1])), where(info, D)))
                 continue
-            if sorted(arr) != sorted(es.spellings(v)):
+            if es.names_modelled() and sorted(arr) != sorted(es.spellings(v)):
                 out.append(Violation("C14", "get_serializations returns exactly the spellings of the variant (disabled or not)", "C14:serializations:%s" % ("disabled" if v.disabled else "enabled"),
                                      "%s: %r, expected %r" % (v.name, arr, es.spellings(v)), where(info, D, {"variant": v.name})))
         if len(samples) < 4 and sample:
